@@ -189,19 +189,21 @@ func g4TableWrites(fn *ssa.Function, depth int) []g4TableWrite {
 			}
 		case ssa.CallInstruction:
 			cal := kit.CalleeOf(x)
-			if depth < 1 && cal.Static != nil && cal.Static != fn && cal.Static.Signature.Recv() != nil && fn.Signature.Recv() != nil &&
-				types.Identical(cal.Static.Signature.Recv().Type(), fn.Signature.Recv().Type()) {
-				// a helper method of the same table that inserts / replaces
-				for _, w := range g4TableWrites(cal.Static, depth+1) {
-					if w.what == "map insert" || w.what == "slot replace" {
-						// sorting helpers re-store existing slots; only count helpers that take a record
-						takes := false
-						for _, prm := range cal.Static.Params[1:] {
-							if g4IsRouteRecord(c11NamedOf(prm.Type())) {
-								takes = true
-							}
-						}
-						if takes {
+			if depth < 2 && cal.Static != nil && cal.Static != fn && cal.Static.Blocks != nil && kit.FuncPkgPath(cal.Static) == kit.PkgPath(g4RoutingPkg) {
+				// a helper of the package (method or function) that is handed the record and inserts /
+				// replaces; sorting helpers re-store existing slots and take no record
+				takes := false
+				for i, prm := range cal.Static.Params {
+					if i == 0 && cal.Static.Signature.Recv() != nil {
+						continue
+					}
+					if g4IsRouteRecord(c11NamedOf(prm.Type())) {
+						takes = true
+					}
+				}
+				if takes {
+					for _, w := range g4TableWrites(cal.Static, depth+1) {
+						if w.what == "map insert" || w.what == "slot replace" || strings.HasPrefix(w.what, "via ") || strings.HasPrefix(w.what, "field ") {
 							out = append(out, g4TableWrite{in, "via " + cal.Name})
 							break
 						}
@@ -263,11 +265,16 @@ func g4SelfInPath(p *kit.Program, cx *c11Flood, r *kit.Report, rule string) {
 				f, base := kit.LoadedField(v)
 				return f != nil && c12Deref(base) == ssa.Value(fn.Params[0]) && c11IsAgentID(cx, f.Type())
 			}
-			// membership form: slices.Contains(route.Path, t.localID) / a repository membership helper
-			if list, elem, isM := c11Membership(c); isM && isOwnID(elem) {
-				if f, base := kit.LoadedField(list); f != nil && f.Name() == "Path" && c12Deref(base) == ssa.Value(fn.Params[1]) {
+			// membership form: slices.Contains(route.Path, t.localID), slices.Index(...) != -1, a
+			// membership helper, or a predicate of the table / the route (t.pathHasLoop(route.Path),
+			// route.traverses(t.localID)): the list must be the Path of the route parameter, the
+			// element an AgentID field of the receiver
+			_ = isOwnID
+			if list, elem, chain, memberWhen, isM := c11MemberDesc(c, nil, 0); isM && c11IsAgentID(cx, elem.Type()) {
+				ld, ed := c11Desc(list, chain), c11Desc(elem, chain)
+				if ld == fnn+"#1.Path" && strings.HasPrefix(ed, fnn+"#0.") && !strings.Contains(ed, "@") {
 					checkIf, callForm = ifi, true
-					if pol {
+					if memberWhen == pol {
 						rejectSucc = b.Succs[0]
 					} else {
 						rejectSucc = b.Succs[1]
@@ -488,8 +495,8 @@ func g4UndoesMark(cx *c11Flood, sk g4Skip) bool {
 
 // g4IsSelfSeenTest: cond is the membership test of the local id in the received seen-by list.
 func g4IsSelfSeenTest(cx *c11Flood, h *ssa.Function, cond ssa.Value) bool {
-	list, elem, ok := c11Membership(cond)
-	return ok && c11LoadsField(elem, cx.localID) && c11RecvListVia(cx, list, nil, h)
+	list, elem, chain, _, ok := c11MemberDesc(cond, nil, 0)
+	return ok && c11LoadsField(elem, cx.localID) && c11RecvListVia(cx, list, chain, h)
 }
 
 // g4Operands walks the expression tree of v (operands, call arguments and receivers, phi edges,
@@ -817,4 +824,110 @@ func c11RecvListVia(cx *c11Flood, v ssa.Value, chain []ssa.CallInstruction, h *s
 		return rest[i+1:] == "SeenBy"
 	}
 	return true
+}
+
+// ---------------------------------------------------------------- membership, semantically
+
+// c11MemberDesc recognises "elem is a member of list" in any of these shapes and returns the two
+// values, the call chain down to the function they live in, and the truth value of cond that means
+// "is a member":
+//   - slices.Contains(list, elem) / a repository membership function(list, elem);
+//   - slices.Index(list, elem) compared with a constant so that -1 and >= 0 are told apart;
+//   - a call to a repository predicate whose body is such a test over its own parameters or fields
+//     of them (t.pathHasLoop(path), route.traverses(id)): the values are then those inside the
+//     predicate and chain gains the call, so that c11Desc maps them back to the caller.
+func c11MemberDesc(cond ssa.Value, chain []ssa.CallInstruction, depth int) (list, elem ssa.Value, outChain []ssa.CallInstruction, memberWhen bool, ok bool) {
+	c, pol := c11Norm(cond, true)
+	if l, e, isM := c11Membership(c); isM {
+		return l, e, chain, pol, true
+	}
+	if bo, isB := c.(*ssa.BinOp); isB {
+		var ic *ssa.Call
+		var k int64
+		var isc, idxLeft bool
+		if x, okc := bo.X.(*ssa.Call); okc {
+			ic, idxLeft = x, true
+			k, isc = kit.ConstInt(bo.Y)
+		} else if y, okc := bo.Y.(*ssa.Call); okc {
+			ic = y
+			k, isc = kit.ConstInt(bo.X)
+		}
+		if ic != nil && isc && len(ic.Call.Args) == 2 {
+			if cal := kit.CalleeOf(ic); cal.Pkg == "slices" && cal.Name == "Index" {
+				ev := func(idx int64) bool {
+					if idxLeft {
+						return c15Cmp(bo.Op, idx, k)
+					}
+					return c15Cmp(bo.Op, k, idx)
+				}
+				miss, hit0, hit5 := ev(-1), ev(0), ev(5)
+				if hit0 == hit5 && miss != hit0 {
+					return ic.Call.Args[0], ic.Call.Args[1], chain, hit0 == pol, true
+				}
+			}
+		}
+		return nil, nil, nil, false, false
+	}
+	call, isCall := c.(*ssa.Call)
+	if !isCall || depth >= 2 || call.Call.IsInvoke() {
+		return nil, nil, nil, false, false
+	}
+	cal := kit.CalleeOf(call)
+	if cal.Static == nil || cal.Static.Blocks == nil || !kit.IsRepoPkg(kit.FuncPkgPath(cal.Static)) {
+		return nil, nil, nil, false, false
+	}
+	fn := cal.Static
+	if rs := fn.Signature.Results(); rs.Len() != 1 || !types.Identical(rs.At(0).Type().Underlying(), types.Typ[types.Bool]) {
+		return nil, nil, nil, false, false
+	}
+	nchain := append(append([]ssa.CallInstruction{}, chain...), call)
+	// loop form: `for … { if L[i] == E { return true } } return false`
+	var L, E ssa.Value
+	nTrue, nFalse, bad := 0, 0, false
+	var single ssa.Value
+	nRet := 0
+	for _, ret := range kit.Returns(fn) {
+		if ret.Block() == fn.Recover {
+			continue
+		}
+		nRet++
+		rv := kit.ReturnResult(ret, 0)
+		b, isConst := kit.ConstBool(rv)
+		if !isConst {
+			single = rv
+			continue
+		}
+		if !b {
+			nFalse++
+			continue
+		}
+		nTrue++
+		found := false
+		for _, g := range c11Guards(ret) {
+			bo, isB := g.Cond.(*ssa.BinOp)
+			if !isB || !((bo.Op == token.EQL && g.Polarity) || (bo.Op == token.NEQ && !g.Polarity)) {
+				continue
+			}
+			for _, pr := range [][2]ssa.Value{{bo.X, bo.Y}, {bo.Y, bo.X}} {
+				if l := c11ElemList(pr[0]); l != nil {
+					if L == nil || (L == l && E == pr[1]) {
+						L, E, found = l, pr[1], true
+					}
+				}
+			}
+		}
+		if !found {
+			bad = true
+		}
+	}
+	if single == nil && !bad && nTrue > 0 && nFalse > 0 && L != nil {
+		return L, E, nchain, pol, true
+	}
+	// wrapper form: `return <membership test>`
+	if single != nil && nRet == 1 {
+		if l, e, ch, mw, isM := c11MemberDesc(single, nchain, depth+1); isM {
+			return l, e, ch, mw == pol, true
+		}
+	}
+	return nil, nil, nil, false, false
 }
